@@ -13,4 +13,14 @@ except ImportError:
     rc = subprocess.call([sys.executable, "-m", "pip", "install", "-q", "--no-index", "--find-links",
                           "/opt/veriftools/wheels", "--target", deps, "hypothesis"])
     print("installed hypothesis into", deps, "rc", rc)
-    sys.exit(rc)
+    if rc:
+        sys.exit(rc)
+
+# atheris (coverage-guided fuzzing tier) goes into /verif/.deps; the checks degrade gracefully without it
+deps = os.path.join(V, ".deps")
+if not os.path.isdir(os.path.join(deps, "atheris")):
+    rc = subprocess.call([sys.executable, "-m", "pip", "install", "-q", "--no-index", "--find-links", "/opt/veriftools/wheels",
+                          "--target", deps, "atheris"])
+    print("installed atheris into", deps, "rc", rc)
+else:
+    print("atheris already present in", deps)
